@@ -105,9 +105,10 @@ impl Property for C05 {
         ]
     }
 
-    fn run_case(&self, _k: u64, rng: &mut Rng, _env: &Env, mon: &mut Monitor) {
+    fn run_case(&self, k: u64, rng: &mut Rng, env: &Env, mon: &mut Monitor) {
         let regime = if rng.chance(3, 4) { Regime::D } else { Regime::R };
         let mut cfg = InstCfg::new(regime);
+        cfg.deepen(env.tier == Tier::Thorough, k);
         cfg.semi_kinds = true;
         let g = gen_instance(rng, &cfg);
         let mut inst = g.instance;
